@@ -9,6 +9,7 @@ This file is an executable transcription (loops with explicit fuel, asserts and 
 `BuildErr.panic`); it is tied to the implementation by suite K-build (identical tables).
 -/
 import Daac.Model.Trie
+import Daac.Model.Nfa
 namespace Daac
 variable {V : Type}
 
@@ -48,54 +49,25 @@ def childId (ns : Array (FNode V)) (s c : Nat) : Option Nat :=
   | some n => (n.edges.find? (fun e => e.1 == c)).map (·.2)
   | none => none
 
-/-- `build_fails` / `build_fails_leftmost`: returns the BFS queue and the fail links. -/
-def buildFails (ns : Array (FNode V)) (leftmost : Bool) : Except BuildErr (Array Nat × Array Nat) := do
-  let n := ns.size
+/-- The fail links and output positions of `buildNfa`, re-indexed by the ids of `Trie.flatten`
+(pre-order, dead state at id 1): what the layout passes read. -/
+def nfaArrays (t : Trie V) (nfa : Nfa V) : Array Nat × Array Nat := Id.run do
+  let paths := (t.paths []).toArray
+  let n := paths.size + 1
+  let mut idOf : Std.HashMap (List Nat) Nat := {}
+  for k in [0:paths.size] do
+    idOf := idOf.insert paths[k]! (if k = 0 then rootId else k + 1)
   let mut fail : Array Nat := Array.replicate n rootId
-  let mut q : Array Nat := #[]
-  for e in (ns[rootId]?.map (·.edges)).getD #[] do
-    q := q.push e.2
-  let mut qi := 0
-  for _ in [0:n + 1] do
-    if qi ≥ q.size then break
-    let s := q[qi]!
-    qi := qi + 1
-    let node := ns[s]!
-    if leftmost && node.out.isSome then
-      fail := fail.set! s deadId
-    for e in node.edges do
-      let c := e.1
-      let child := e.2
-      let mut f := fail[s]!
-      let mut nf := rootId
-      if leftmost && f == deadId then
-        nf := deadId
-      else
-        let mut done := false
-        for _ in [0:n + 1] do
-          match childId ns f c with
-          | some cf => nf := cf; done := true; break
-          | none =>
-            let nx := fail[f]!
-            if leftmost && nx == deadId then nf := deadId; done := true; break
-            if f == rootId && nx == rootId then nf := rootId; done := true; break
-            f := nx
-        if !done then throw (.panic "fail walk does not terminate")
-      fail := fail.set! child nf
-      q := q.push child
-  return (q, fail)
-
-/-- `build_outputs`: output records and the output position of every state. -/
-def buildOutputs (ns : Array (FNode V)) (q fail : Array Nat) : Array (Out V) × Array Nat := Id.run do
-  let mut outs : Array (Out V) := #[]
-  let mut opos : Array Nat := Array.replicate ns.size 0
-  for s in q do
-    match ns[s]!.out with
-    | some (v, len) =>
-      opos := opos.set! s (outs.size + 1)
-      outs := outs.push ⟨v, len, opos[fail[s]!]!⟩
-    | none => opos := opos.set! s opos[fail[s]!]!
-  return (outs, opos)
+  let mut opos : Array Nat := Array.replicate n 0
+  for k in [0:paths.size] do
+    let p := paths[k]!
+    let i := if k = 0 then rootId else k + 1
+    let f := match nfa.fail.get p with
+      | .dead => deadId
+      | .node u => idOf.getD u rootId
+    fail := fail.set! i f
+    opos := opos.set! i (nfa.out.opos.getD p 0)
+  return (fail, opos)
 
 /-! ### `BuildHelper` -/
 
@@ -392,8 +364,9 @@ def buildDA (variant : Variant) (cfg : Cfg) (P : List (LPat V)) : Except BuildEr
   if acc.len = 0 then throw .invalidArgument
   if variant == .bytewise && acc.len > u24Max then throw .automatonScale
   let ns := acc.trie.flatten
-  let (q, fail) ← buildFails ns (cfg.kind != 0)
-  let (outs, opos) := buildOutputs ns q fail
+  let nfa := buildNfa acc.trie (cfg.kind != 0)
+  let (fail, opos) := nfaArrays acc.trie nfa
+  let outs := nfa.out.outs
   let states ← match variant with
     | .bytewise => buildBytewise cfg ns fail opos
     | .charwise => buildCharwise cfg mapper ns fail opos
